@@ -78,7 +78,7 @@ pub mod rec {
     impl ser::Error for E { fn custom<T: std::fmt::Display>(_m: T) -> Self { E } }
 
     #[derive(Default, Clone, Copy)]
-    pub struct Shape { pub variant: &'static str, pub nfields: usize, pub f0: &'static str, pub f1: &'static str, pub v0: u64, pub v1: u64 }
+    pub struct Shape { pub sname: &'static str, pub sptr: usize, pub slen: usize, pub variant: &'static str, pub nfields: usize, pub f0: &'static str, pub f1: &'static str, pub v0: u64, pub v1: u64 }
 
     pub struct Rec;
     pub struct SV { shape: Shape, i: usize }
@@ -111,7 +111,7 @@ pub mod rec {
     impl ser::Serializer for Rec {
         type Ok = Shape; type Error = E;
         type SerializeSeq = Impossible<Shape, E>; type SerializeTuple = Impossible<Shape, E>; type SerializeTupleStruct = Impossible<Shape, E>;
-        type SerializeTupleVariant = Impossible<Shape, E>; type SerializeMap = Impossible<Shape, E>; type SerializeStruct = Impossible<Shape, E>; type SerializeStructVariant = SV;
+        type SerializeTupleVariant = Impossible<Shape, E>; type SerializeMap = Impossible<Shape, E>; type SerializeStruct = SV; type SerializeStructVariant = SV;
         no!(serialize_bool(bool), serialize_i8(i8), serialize_i16(i16), serialize_i32(i32), serialize_i64(i64), serialize_u8(u8), serialize_u16(u16), serialize_u32(u32), serialize_u64(u64), serialize_f32(f32), serialize_f64(f64), serialize_char(char), serialize_str(&str), serialize_bytes(&[u8]));
         fn serialize_none(self) -> Result<Shape, E> { Err(E) }
         fn serialize_some<T: ?Sized + Serialize>(self, _v: &T) -> Result<Shape, E> { Err(E) }
@@ -125,10 +125,43 @@ pub mod rec {
         fn serialize_tuple_struct(self, _n: &'static str, _l: usize) -> Result<Self::SerializeTupleStruct, E> { Err(E) }
         fn serialize_tuple_variant(self, _n: &'static str, _i: u32, _v: &'static str, _l: usize) -> Result<Self::SerializeTupleVariant, E> { Err(E) }
         fn serialize_map(self, _l: Option<usize>) -> Result<Self::SerializeMap, E> { Err(E) }
-        fn serialize_struct(self, _n: &'static str, _l: usize) -> Result<Self::SerializeStruct, E> { Err(E) }
+        fn serialize_struct(self, n: &'static str, l: usize) -> Result<Self::SerializeStruct, E> { Ok(SV { shape: Shape { sname: n, nfields: l, ..Default::default() }, i: 0 }) }
         fn serialize_struct_variant(self, _n: &'static str, _i: u32, v: &'static str, l: usize) -> Result<SV, E> {
             Ok(SV { shape: Shape { variant: v, nfields: l, ..Default::default() }, i: 0 })
         }
+    }
+    pub struct StrOnly;
+    impl ser::Serializer for StrOnly {
+        type Ok = (usize, usize); type Error = E;
+        type SerializeSeq = Impossible<(usize, usize), E>; type SerializeTuple = Impossible<(usize, usize), E>; type SerializeTupleStruct = Impossible<(usize, usize), E>;
+        type SerializeTupleVariant = Impossible<(usize, usize), E>; type SerializeMap = Impossible<(usize, usize), E>; type SerializeStruct = Impossible<(usize, usize), E>; type SerializeStructVariant = Impossible<(usize, usize), E>;
+        fn serialize_str(self, v: &str) -> Result<(usize, usize), E> { Ok((v.as_ptr() as usize, v.len())) }
+        no!(serialize_bool(bool), serialize_i8(i8), serialize_i16(i16), serialize_i32(i32), serialize_i64(i64), serialize_u8(u8), serialize_u16(u16), serialize_u32(u32), serialize_u64(u64), serialize_f32(f32), serialize_f64(f64), serialize_char(char), serialize_bytes(&[u8]));
+        fn serialize_none(self) -> Result<Self::Ok, E> { Err(E) }
+        fn serialize_some<T: ?Sized + Serialize>(self, _v: &T) -> Result<Self::Ok, E> { Err(E) }
+        fn serialize_unit(self) -> Result<Self::Ok, E> { Err(E) }
+        fn serialize_unit_struct(self, _n: &'static str) -> Result<Self::Ok, E> { Err(E) }
+        fn serialize_unit_variant(self, _n: &'static str, _i: u32, _v: &'static str) -> Result<Self::Ok, E> { Err(E) }
+        fn serialize_newtype_struct<T: ?Sized + Serialize>(self, _n: &'static str, v: &T) -> Result<Self::Ok, E> { v.serialize(StrOnly) }
+        fn serialize_newtype_variant<T: ?Sized + Serialize>(self, _n: &'static str, _i: u32, _var: &'static str, _v: &T) -> Result<Self::Ok, E> { Err(E) }
+        fn serialize_seq(self, _l: Option<usize>) -> Result<Self::SerializeSeq, E> { Err(E) }
+        fn serialize_tuple(self, _l: usize) -> Result<Self::SerializeTuple, E> { Err(E) }
+        fn serialize_tuple_struct(self, _n: &'static str, _l: usize) -> Result<Self::SerializeTupleStruct, E> { Err(E) }
+        fn serialize_tuple_variant(self, _n: &'static str, _i: u32, _v: &'static str, _l: usize) -> Result<Self::SerializeTupleVariant, E> { Err(E) }
+        fn serialize_map(self, _l: Option<usize>) -> Result<Self::SerializeMap, E> { Err(E) }
+        fn serialize_struct(self, _n: &'static str, _l: usize) -> Result<Self::SerializeStruct, E> { Err(E) }
+        fn serialize_struct_variant(self, _n: &'static str, _i: u32, _v: &'static str, _l: usize) -> Result<Self::SerializeStructVariant, E> { Err(E) }
+    }
+    impl ser::SerializeStruct for SV {
+        type Ok = Shape; type Error = E;
+        fn serialize_field<T: ?Sized + Serialize>(&mut self, key: &'static str, value: &T) -> Result<(), E> {
+            let (p, l) = value.serialize(StrOnly)?;
+            self.shape.f0 = key; self.shape.sptr = p; self.shape.slen = l;
+            self.i += 1;
+            Ok(())
+        }
+        fn skip_field(&mut self, _key: &'static str) -> Result<(), E> { Ok(()) }
+        fn end(self) -> Result<Shape, E> { if self.i == 1 { Ok(self.shape) } else { Err(E) } }
     }
     impl ser::SerializeStructVariant for SV {
         type Ok = Shape; type Error = E;
@@ -139,6 +172,80 @@ pub mod rec {
             Ok(())
         }
         fn end(self) -> Result<Shape, E> { Ok(self.shape) }
+    }
+}
+
+pub mod script {
+    //! Scripted self-describing deserializer: one enum struct-variant `{ <key>: { "a": <u64> } }`.
+    use serde::de::{self, Visitor, DeserializeSeed};
+    #[derive(Debug)]
+    pub struct DE;
+    impl std::fmt::Display for DE { fn fmt(&self, _f: &mut std::fmt::Formatter<'_>) -> std::fmt::Result { Ok(()) } }
+    impl std::error::Error for DE {}
+    impl de::Error for DE { fn custom<T: std::fmt::Display>(_m: T) -> Self { DE } }
+
+    pub struct KeyD<'a>(pub &'a str);
+    impl<'de, 'a> de::Deserializer<'de> for KeyD<'a> {
+        type Error = DE;
+        fn deserialize_any<V: Visitor<'de>>(self, v: V) -> Result<V::Value, DE> { v.visit_str(self.0) }
+        serde::forward_to_deserialize_any! { bool i8 i16 i32 i64 i128 u8 u16 u32 u64 u128 f32 f64 char str string bytes byte_buf option unit unit_struct newtype_struct seq tuple tuple_struct map struct enum identifier ignored_any }
+    }
+    pub struct U64D(pub u64);
+    impl<'de> de::Deserializer<'de> for U64D {
+        type Error = DE;
+        fn deserialize_any<V: Visitor<'de>>(self, v: V) -> Result<V::Value, DE> { v.visit_u64(self.0) }
+        serde::forward_to_deserialize_any! { bool i8 i16 i32 i64 i128 u8 u16 u32 u64 u128 f32 f64 char str string bytes byte_buf option unit unit_struct newtype_struct seq tuple tuple_struct map struct enum identifier ignored_any }
+    }
+    pub struct ED<'a> { pub key: &'a str, pub field: &'a str, pub val: u64, pub nfields: u8 }
+    impl<'de, 'a> de::Deserializer<'de> for ED<'a> {
+        type Error = DE;
+        fn deserialize_any<V: Visitor<'de>>(self, _v: V) -> Result<V::Value, DE> { Err(DE) }
+        fn deserialize_enum<V: Visitor<'de>>(self, _n: &'static str, _vs: &'static [&'static str], v: V) -> Result<V::Value, DE> { v.visit_enum(self) }
+        serde::forward_to_deserialize_any! { bool i8 i16 i32 i64 i128 u8 u16 u32 u64 u128 f32 f64 char str string bytes byte_buf option unit unit_struct newtype_struct seq tuple tuple_struct map struct identifier ignored_any }
+    }
+    impl<'de, 'a> de::EnumAccess<'de> for ED<'a> {
+        type Error = DE; type Variant = VA<'a>;
+        fn variant_seed<S: DeserializeSeed<'de>>(self, seed: S) -> Result<(S::Value, VA<'a>), DE> {
+            let v = seed.deserialize(KeyD(self.key))?;
+            Ok((v, VA { field: self.field, val: self.val, left: self.nfields }))
+        }
+    }
+    pub struct VA<'a> { field: &'a str, val: u64, left: u8 }
+    impl<'de, 'a> de::VariantAccess<'de> for VA<'a> {
+        type Error = DE;
+        fn unit_variant(self) -> Result<(), DE> { Err(DE) }
+        fn newtype_variant_seed<T: DeserializeSeed<'de>>(self, _s: T) -> Result<T::Value, DE> { Err(DE) }
+        fn tuple_variant<V: Visitor<'de>>(self, _l: usize, _v: V) -> Result<V::Value, DE> { Err(DE) }
+        fn struct_variant<V: Visitor<'de>>(self, _f: &'static [&'static str], v: V) -> Result<V::Value, DE> { v.visit_map(self) }
+    }
+    impl<'de, 'a> de::MapAccess<'de> for VA<'a> {
+        type Error = DE;
+        fn next_key_seed<K: DeserializeSeed<'de>>(&mut self, seed: K) -> Result<Option<K::Value>, DE> {
+            if self.left == 0 { return Ok(None); }
+            self.left -= 1;
+            seed.deserialize(KeyD(self.field)).map(Some)
+        }
+        fn next_value_seed<V: DeserializeSeed<'de>>(&mut self, seed: V) -> Result<V::Value, DE> { seed.deserialize(U64D(self.val)) }
+    }
+
+    /// `{ <key>: { <field>: <u64> } }` as nested self-describing maps (for `deserialize_any` consumers).
+    pub struct MD<'a> { pub key: &'a str, pub field: &'a str, pub val: u64, pub level: u8, pub left: u8 }
+    impl<'de, 'a> de::Deserializer<'de> for MD<'a> {
+        type Error = DE;
+        fn deserialize_any<V: Visitor<'de>>(self, v: V) -> Result<V::Value, DE> { v.visit_map(self) }
+        serde::forward_to_deserialize_any! { bool i8 i16 i32 i64 i128 u8 u16 u32 u64 u128 f32 f64 char str string bytes byte_buf option unit unit_struct newtype_struct seq tuple tuple_struct map struct enum identifier ignored_any }
+    }
+    impl<'de, 'a> de::MapAccess<'de> for MD<'a> {
+        type Error = DE;
+        fn next_key_seed<K: DeserializeSeed<'de>>(&mut self, seed: K) -> Result<Option<K::Value>, DE> {
+            if self.left == 0 { return Ok(None); }
+            self.left -= 1;
+            seed.deserialize(KeyD(if self.level == 0 { self.key } else { self.field })).map(Some)
+        }
+        fn next_value_seed<V: DeserializeSeed<'de>>(&mut self, seed: V) -> Result<V::Value, DE> {
+            if self.level == 0 { seed.deserialize(MD { key: self.key, field: self.field, val: self.val, level: 1, left: 1 }) }
+            else { seed.deserialize(U64D(self.val)) }
+        }
     }
 }
 
@@ -202,6 +309,126 @@ mod proofs {
         let _: fn(DepsMut, Env, MessageInfo, sv::InstantiateMsg) -> Result<Response, Echo> = entry_points::instantiate;
     }
 
+
+    #[kani::proof]
+    #[kani::unwind(12)]
+    #[kani::stub(alloc::fmt::format, fmt_stub)]
+    #[kani::stub(std::backtrace::Backtrace::capture, bt_stub)]
+    fn wrapper_decode_scripted() {
+        use serde::de::value::{MapDeserializer, Error as DeErr};
+        use serde::Deserialize;
+        let x: u64 = kani::any();
+        let inner = MapDeserializer::<_, DeErr>::new(std::iter::once(("a", x)));
+        let outer = MapDeserializer::<_, DeErr>::new(std::iter::once(("c_exec", inner)));
+        let r = sv::ContractExecMsg::deserialize(outer);
+        match r {
+            Ok(sv::ContractExecMsg::Fix(sv::ExecMsg::CExec { a })) => assert!(a == x),
+            _ => assert!(false),
+        }
+    }
+
+    #[kani::proof]
+    #[kani::unwind(10)]
+    fn remote_shape() {
+        use serde::Serialize;
+        use sylvia::types::Remote;
+        let bytes: [u8; 6] = kani::any();
+        let len: usize = kani::any(); kani::assume(len <= 6);
+        let mut i = 0; while i < 6 { kani::assume(bytes[i] < 128); i += 1; }
+        let addr = Addr::unchecked(unsafe { std::str::from_utf8_unchecked(&bytes[..len]) });
+        let owned: bool = kani::any();
+        let keep = addr.clone();
+        let r1: Remote<'_, Fix> = if owned { Remote::new(addr) } else { Remote::borrowed(&keep) };
+        let sh = r1.serialize(rec::Rec).unwrap();
+        assert!(sh.sname == "Remote" && sh.nfields == 1 && sh.f0 == "addr");
+        let a: &Addr = r1.as_ref();
+        assert!(sh.sptr == a.as_str().as_ptr() as usize && sh.slen == a.as_str().len());
+        assert!(a.as_str().len() == len);
+        let r2: Remote<'_, dyn iface::Iface<Error = Echo>> = Remote::borrowed(&keep);
+        let sh2 = r2.serialize(rec::Rec).unwrap();
+        assert!(sh2.sname == "Remote" && sh2.nfields == 1 && sh2.f0 == "addr" && sh2.slen == len);
+        use schemars::JsonSchema;
+        assert!(<Remote<'static, Fix> as JsonSchema>::schema_name() == <Remote<'static, dyn iface::Iface<Error = Echo>> as JsonSchema>::schema_name());
+    }
+
+    #[kani::proof]
+    #[kani::unwind(14)]
+    fn derived_decode_names() {
+        use serde::de::value::{MapDeserializer, Error as DeErr};
+        use serde::Deserialize;
+        let bytes: [u8; 8] = kani::any();
+        let len: usize = kani::any(); kani::assume(len <= 8);
+        let mut i = 0; while i < 8 { kani::assume(bytes[i] < 128); i += 1; }
+        let key = unsafe { std::str::from_utf8_unchecked(&bytes[..len]) };
+        let x: u64 = kani::any();
+        let inner = MapDeserializer::<_, DeErr>::new(std::iter::once(("a", x)));
+        let outer = MapDeserializer::<_, DeErr>::new(std::iter::once((key, inner)));
+        let r = sv::ExecMsg::deserialize(outer);
+        match r {
+            Ok(sv::ExecMsg::CExec { a }) => { assert!(key == "c_exec" && a == x); }
+            Ok(_) => assert!(false),
+            Err(_) => assert!(key != "c_exec"),
+        }
+    }
+
+    #[kani::proof]
+    #[kani::unwind(10)]
+    #[kani::stub(alloc::fmt::format, fmt_stub)]
+    fn remote_decode_scripted() {
+        use serde::de::value::{MapDeserializer, Error as DeErr};
+        use serde::Deserialize;
+        use sylvia::types::Remote;
+        let bytes: [u8; 4] = kani::any();
+        let len: usize = kani::any(); kani::assume(len <= 4);
+        let mut i = 0; while i < 4 { kani::assume(bytes[i] < 128); i += 1; }
+        let s = unsafe { std::str::from_utf8_unchecked(&bytes[..len]) };
+        struct SD<'a>(&'a str);
+        impl<'de, 'a> serde::Deserializer<'de> for SD<'a> {
+            type Error = DeErr;
+            fn deserialize_any<V: serde::de::Visitor<'de>>(self, v: V) -> Result<V::Value, DeErr> { v.visit_str(self.0) }
+            fn deserialize_newtype_struct<V: serde::de::Visitor<'de>>(self, _n: &'static str, v: V) -> Result<V::Value, DeErr> { v.visit_newtype_struct(self) }
+            serde::forward_to_deserialize_any! { bool i8 i16 i32 i64 i128 u8 u16 u32 u64 u128 f32 f64 char str string bytes byte_buf option unit unit_struct seq tuple tuple_struct map struct enum identifier ignored_any }
+        }
+        struct VV<'a>(&'a str);
+        impl<'de, 'a> serde::de::IntoDeserializer<'de, DeErr> for VV<'a> { type Deserializer = SD<'a>; fn into_deserializer(self) -> SD<'a> { SD(self.0) } }
+        let d = MapDeserializer::<_, DeErr>::new(std::iter::once(("addr", VV(s))));
+        let r: Result<Remote<'static, Fix>, _> = Remote::deserialize(d);
+        match r {
+            Ok(rem) => { let a: &Addr = rem.as_ref(); assert!(a.as_str().len() == len); let mut j = 0; while j < len { assert!(a.as_str().as_bytes()[j] == bytes[j]); j += 1; } }
+            Err(_) => assert!(false),
+        }
+    }
+
+    #[kani::proof]
+    #[kani::unwind(12)]
+    fn derived_decode_names2() {
+        use serde::Deserialize;
+        let bytes: [u8; 8] = kani::any();
+        let len: usize = kani::any(); kani::assume(len <= 8);
+        let mut i = 0; while i < 8 { kani::assume(bytes[i] < 128); i += 1; }
+        let key = unsafe { std::str::from_utf8_unchecked(&bytes[..len]) };
+        let x: u64 = kani::any();
+        let r = sv::ExecMsg::deserialize(script::ED { key, field: "a", val: x, nfields: 1 });
+        match r {
+            Ok(sv::ExecMsg::CExec { a }) => { assert!(key == "c_exec" && a == x); }
+            Ok(_) => assert!(false),
+            Err(_) => assert!(key != "c_exec"),
+        }
+    }
+
+    #[kani::proof]
+    #[kani::unwind(12)]
+    #[kani::stub(alloc::fmt::format, fmt_stub)]
+    #[kani::stub(std::backtrace::Backtrace::capture, bt_stub)]
+    fn wrapper_decode_scripted2() {
+        use serde::Deserialize;
+        let x: u64 = kani::any();
+        let r = sv::ContractExecMsg::deserialize(script::MD { key: "c_exec", field: "a", val: x, level: 0, left: 1 });
+        match r {
+            Ok(sv::ContractExecMsg::Fix(sv::ExecMsg::CExec { a })) => assert!(a == x),
+            _ => assert!(false),
+        }
+    }
 
     #[kani::proof]
     #[kani::unwind(16)]
